@@ -11,7 +11,7 @@ use vm_memory::{Bytes, GuestAddress, GuestMemory, GuestMemoryMmap, GuestMemoryRe
 struct Al([u8; 256]);
 
 pub const HOWS: &[&str] = &[
-    "write", "read", "wslice", "rslice", "copyfrom", "copyto", "acopyfrom", "acopyto", "rv_slice", "wv_mutslice", "wv_vec",
+    "write", "read", "wslice", "rslice", "copyfrom", "copyto", "acopyfrom", "acopyto", "rv_slice", "wv_mutslice", "wv_vec", "wva_vec_tight",
     "rv_cursor", "wv_cursor", "r.write", "r.read", "g.write", "g.read", "g.wslice", "g.rslice",
 ];
 pub const OBJ_HOWS: &[&str] = &["wobj", "robj", "r.wobj", "r.robj", "g.wobj", "g.robj"];
@@ -96,6 +96,18 @@ impl CopyWorld {
             hk::copy_log_start();
             v.write_volatile(&vs.subslice(0, total).unwrap()).unwrap();
             log = hk::copy_log_take();
+            return (gbase, dst, log);
+        }
+        if how == "wva_vec_tight" {
+            // Vec<u8> whose spare capacity is smaller than the transfer (it has to grow): `write_all_volatile_to` must still
+            // fetch the guest bytes in one piece; the destination is wherever the bytes ended up
+            let before = ls % 4;
+            let mut v: Vec<u8> = Vec::with_capacity(before + total / 2);
+            v.extend_from_slice(&[0u8; 3][..before]);
+            hk::copy_log_start();
+            vs.write_all_volatile_to(0, &mut v, total).unwrap();
+            log = hk::copy_log_take();
+            let dst = v.as_ptr() as usize + before;
             return (gbase, dst, log);
         }
         if to_guest { (lbase, g_addr, log) } else { (g_addr, lbase, log) }
